@@ -129,8 +129,8 @@ func c18ExecReadOnlyPseudo(w *World, o Op) Obs {
 // maps with the stored grant.  Such histories are compared on the Go side only.
 const c18FlagClaims = "c18:embedder-sets-claims"
 
-// KNOWN on the current tree, reported, and therefore not part of the default run (set
-// VERIF_C18_HYBRID_CLAIMS=1 to include it): in a hybrid flow (response type code + token / id_token)
+// Found by this suite and REPAIRED (defect D26, fix ae6db20; VERIF_C18_NO_HYBRID_CLAIMS=1 leaves the hybrid
+// histories out): before the fix, in a hybrid flow (response type code + token / id_token)
 // the implicit grant stored by the authorization endpoint and the authentication session kept for the
 // code share their three claim maps (internal/authorize/authorize.go implicitGrantInfo); when the code
 // is redeemed, authorizationCodeGrantInfo hands the same maps to the embedder's HandleGrantFunc, whose
@@ -138,7 +138,7 @@ const c18FlagClaims = "c18:embedder-sets-claims"
 // first access token answers the new members) and not under the copying one.  Without the switch the
 // flagged worlds have no hybrid flows: the directed hybrid history is left out and the clients of the
 // generated worlds lose their hybrid response types.
-var c18HybridClaims = os.Getenv("VERIF_C18_HYBRID_CLAIMS") != ""
+var c18HybridClaims = os.Getenv("VERIF_C18_NO_HYBRID_CLAIMS") == "" // on by default since the defect was repaired (D26)
 
 func c18HasFlag(extra []string, flag string) bool {
 	for _, e := range extra {
